@@ -417,7 +417,7 @@ func run(r *core.Run) {
 	preMu.Unlock()
 	r.Extra("failing_cases_by_preliminary_class", fc)
 	r.Bound("options", "default; --rename-exports (sessions with an export form); --preserve-params=false (sessions without &key / keyword arguments); --exclude <first pool name> (sessions with a top-level definition; thorough: all); thorough: both flags together")
-	r.Bound("run_limits", "max-steps 20000, max-tail-iterations 500, physical stack 200 (same for original and minified)")
+	r.Bound("run_limits", "max-steps 3000, max-tail-iterations 100, physical stack 100 (same for original and minified)")
 	r.Rule("every program of the grammar up to the node bound, per family, de-duplicated by text across families; " +
 		"states = distinct programs, transitions = (program, option) checks, evaluations = session executions in fresh runtimes; " +
 		"non-trivial = at least one option renamed at least one symbol (distinct by program text)")
